@@ -23,8 +23,8 @@ func imageCases(c *hx.Ctx, i int, cf cfg, b built, loc *located) {
 	if cf.rr || cf.joliet || volBytes >= 1<<20 || loc.base != 0 {
 		return
 	}
-	idPvd, idRd, idEnc := fmt.Sprintf("d/pvd/%d", i), fmt.Sprintf("d/readp/%d", i), fmt.Sprintf("d/encimg/%d", i)
-	if !c.Want(idPvd) && !c.Want(idRd) && !c.Want(idEnc) {
+	idPvd, idRd, idEnc, idLog := fmt.Sprintf("d/pvd/%d", i), fmt.Sprintf("d/readp/%d", i), fmt.Sprintf("d/encimg/%d", i), fmt.Sprintf("d/wlog/%d", i)
+	if !c.Want(idPvd) && !c.Want(idRd) && !c.Want(idEnc) && !c.Want(idLog) {
 		return
 	}
 	pvd := b.dev.Bytes(loc.firstDesc, 2048)
@@ -78,4 +78,24 @@ func imageCases(c *hx.Ctx, i int, cf cfg, b built, loc *located) {
 		c.Impl(idEnc, fmt.Sprintf("n=%d", n), "d="+strings.Join(ds, ","), fmt.Sprintf("pvd=%d", crc32.ChecksumIEEE(pvd)), "placed=1", "hyp=1", "walk="+walk)
 		c.Stat("corr.encimage")
 	}
+	if c.Want(idLog) {
+		wlogCase(c, idLog, p, b, loc)
+	}
+}
+
+// wlogCase: the WriteAt log of the real Finalize (offset:length of every call, in order) against the
+// calls the model issues (ImageIn.writesGo: one per 2048-byte copy chunk, the fill of the last block,
+// one per directory extent, ...), the volume size the model computes against the PVD's, and that
+// every write lies inside it.
+func wlogCase(c *hx.Ctx, id, path string, b built, loc *located) {
+	var ws []string
+	for _, e := range b.dev.Log {
+		if e.Sync || e.Len == 0 {
+			continue
+		}
+		ws = append(ws, fmt.Sprintf("%d:%d", e.Off, e.Len))
+	}
+	c.Case(id, "iso.wlog", "path="+path, fmt.Sprintf("first=%d", loc.firstDesc))
+	c.Impl(id, fmt.Sprintf("n=%d", len(ws)), fmt.Sprintf("vol=%d", loc.img.volBlocks), fmt.Sprintf("pvdvol=%d", loc.img.volBlocks), "inside=1", "w="+strings.Join(ws, ","))
+	c.Stat("corr.writelog")
 }
